@@ -170,6 +170,23 @@ pub fn coded(r: usize, c: usize, p: usize, seed: u64) -> M {
     M::new(r, c, |i, j| sgn(p, i, j) * ((1 + 16 * i + j) as f64 * k + off))
 }
 
+/// Row stride of the wide index code (long family, round 2): injective for every c <= 512.
+pub const WIDE: usize = 512;
+
+/// Wide index code for the long family: v(i,j) = sign(i,j) * ((1 + 512 i + j) k + off); every entry
+/// distinct for c <= 512 and exactly representable in f32 for r <= 1024 (all seed variants).
+pub fn coded_w(r: usize, c: usize, p: usize, seed: u64) -> M {
+    let (k, off) = seed_kf(seed);
+    M::new(r, c, |i, j| sgn(p, i, j) * ((1 + WIDE * i + j) as f64 * k + off))
+}
+
+/// Wide second code for right-hand operands of the long family: (2 + 2048 i + 3 j).
+pub fn coded2_w(r: usize, c: usize, p: usize, seed: u64) -> M {
+    let (k, off) = seed_kf(seed);
+    let pp = if p == 0 { 0 } else { 2 };
+    M::new(r, c, |i, j| sgn(pp, i, j) * ((2 + 4 * WIDE * i + 3 * j) as f64 * k + off))
+}
+
 /// A second, different index code for right-hand operands: (2 + 32 i + 3 j), sign + or checkerboard.
 pub fn coded2(r: usize, c: usize, p: usize, seed: u64) -> M {
     let (k, off) = seed_kf(seed);
@@ -188,6 +205,8 @@ pub enum FillSet {
     Full { sigma_max: usize },
     /// 4 index-coded + 1 large-magnitude + 1 offset (structured shapes beyond the lattice bound)
     Lite,
+    /// as `Lite`, but with the wide index code (long family: rows / columns of length >= 15)
+    LiteWide,
 }
 
 pub fn pow3(n: usize) -> usize {
@@ -197,7 +216,7 @@ pub fn pow3(n: usize) -> usize {
 pub fn n_fills(r: usize, c: usize, fs: FillSet) -> usize {
     match fs {
         FillSet::Full { sigma_max } => 20 + if r * c <= sigma_max { pow3(r * c) } else { 0 },
-        FillSet::Lite => 6,
+        FillSet::Lite | FillSet::LiteWide => 6,
     }
 }
 
@@ -207,7 +226,8 @@ fn offset_pattern(i: usize, j: usize) -> f64 {
 
 pub fn fill(idx: usize, r: usize, c: usize, fs: FillSet, seed: u64) -> M {
     match fs {
-        FillSet::Lite => match idx {
+        FillSet::Lite | FillSet::LiteWide => match idx {
+            0..=3 if fs == FillSet::LiteWide => coded_w(r, c, idx, seed),
             0..=3 => coded(r, c, idx, seed),
             4 => M::new(r, c, |i, j| LARGE[(i * c + j) % 8]),
             _ => M::new(r, c, |i, j| 1e8 + 2.0 * offset_pattern(i, j)),
@@ -237,7 +257,8 @@ pub fn fill(idx: usize, r: usize, c: usize, fs: FillSet, seed: u64) -> M {
 
 pub fn fill_name(idx: usize, fs: FillSet) -> String {
     match fs {
-        FillSet::Lite => match idx {
+        FillSet::Lite | FillSet::LiteWide => match idx {
+            0..=3 if fs == FillSet::LiteWide => format!("wide-index-coded/{}", SIGN_NAMES[idx]),
             0..=3 => format!("index-coded/{}", SIGN_NAMES[idx]),
             4 => "large-magnitude".into(),
             _ => "offset 1e8+2*{-1,0,1}".into(),
